@@ -158,6 +158,8 @@ def worker_main(a):
 
         budget = 0 if a.no_shrink else (a.shrink_budget if time.time() < deadline
                                         else min(40, a.shrink_budget))
+        if sig[2] is not None:
+            budget = min(budget, 20)    # a listed finding: no replay file is written for it
         best, used = shrink(list(ch.values), still_fails, budget=budget)
         # canonical final run of the minimised list
         faulthandler.dump_traceback_later(a.run_timeout, exit=True)
